@@ -77,6 +77,10 @@ def main(argv=None):
         tier = argv[argv.index('--tier') + 1]
     seed = int(os.environ.get('VERIF_SEED', '0') or 0)
     jobs = int(os.environ.get('VERIF_JOBS', '16'))
+    from . import solve as _solve
+    if tier != 'quick':
+        _solve.CFG['rlimit'] = 2000000000
+        _solve.CFG['timeout'] = 7200
     t0 = time.time()
     os.chdir(ROOT)
     mod = importlib.import_module('cbv.props.' + prop)
@@ -284,8 +288,9 @@ def main(argv=None):
         'wall_s': round(time.time() - t0, 2),
         'violations': len([l for l in lines if l.startswith('VIOLATION')]),
     }
-    os.makedirs(os.path.join(ROOT, 'evidence'), exist_ok=True)
-    with open(os.path.join(ROOT, 'evidence', prop + '.json'), 'w') as f:
+    evdir = os.environ.get('VERIF_EVIDENCE_DIR') or os.path.join(ROOT, 'evidence')
+    os.makedirs(evdir, exist_ok=True)
+    with open(os.path.join(evdir, prop + '.json'), 'w') as f:
         json.dump(ev, f, indent=1, default=str)
 
     for l in lines:
@@ -333,7 +338,8 @@ def _f8_absent_level(cfg, sz):
     return 'level' in (cfg.get('absent') or {})
 
 
-PREDS = {'f1_short': _f1_short, 'f2_region': _f2_region, 'f8_absent_level': _f8_absent_level}
+PREDS = {'f1_short': _f1_short, 'f2_region': _f2_region, 'f8_absent_level': _f8_absent_level,
+         'f11_tiny': lambda cfg, sz: sz.get('H') == 2 or sz.get('W') == 2}
 
 
 def _in_known(fl, findings):
